@@ -167,6 +167,10 @@ func (w *worker) run() {
 			default:
 				w.conn.SetWriteDeadline(t)
 			}
+		case "keyupdate":
+			// TLS 1.3 KeyUpdate initiated by this side (verif hook; an error - other version,
+			// handshake not finished, transport gone - is of no interest here)
+			_ = tls.VerifC25SendKeyUpdate(w.conn, op.N != 0)
 		case "closewrite":
 			w.conn.CloseWrite()
 		case "close":
@@ -184,7 +188,7 @@ func (w *worker) run() {
 // ---------------------------------------------------------------------------
 // stream oracle
 
-const maxWriters = 8
+const maxWriters = 12
 
 type parser struct {
 	hdr        [6]byte
@@ -613,6 +617,26 @@ func gen(t *rapid.T) Plan {
 	p.NoDyn = uni(t, "nodyn", 4) == 0
 	p.C = genSide(t, "c")
 	p.S = genSide(t, "s")
+	// motif 3 (TLS 1.3 plans, 1 in 2): one side gets a goroutine that initiates 1-4 key updates,
+	// mostly with update_requested; the PEER gets a reader and a paced writer, so that its reading
+	// goroutine answers (writes a KeyUpdate and re-keys the sending direction) while and before
+	// its writer writes
+	if p.Vers == 0x0304 && uni(t, "keyupdate", 2) == 0 {
+		ku := []Op{{K: "sleep", N: pick(t, "ku-us", []int{1, 200, 1000, 3000})}}
+		for i, n := 0, 1+uni(t, "ku-n", 4); i < n; i++ {
+			ku = append(ku, Op{K: "keyupdate", N: pick(t, "ku-req", []int{1, 1, 0})}, Op{K: pick(t, "ku-then", []string{"gosched", "write", "sleep"}), N: 100})
+		}
+		rd := []Op{{K: "read", N: 600}, {K: "read", N: 600}, {K: "read", N: 4096}, {K: "read", N: 600}, {K: "read", N: 4096}, {K: "read", N: 600}}
+		var wr []Op
+		for i := 0; i < 5; i++ {
+			wr = append(wr, Op{K: "sleep", N: pick(t, "ku-pace", []int{200, 1000, 3000})}, Op{K: "write", N: pick(t, "ku-wn", []int{10, 300, 1500})})
+		}
+		if rapid.Bool().Draw(t, "ku-initiator-is-client") {
+			p.C, p.S = append(p.C, ku), append(p.S, rd, wr)
+		} else {
+			p.S, p.C = append(p.S, ku), append(p.C, rd, wr)
+		}
+	}
 	nd := uni(t, "ndelays", 4)
 	for i := 0; i < nd; i++ {
 		p.Delays = append(p.Delays, pick(t, "delay", []int{0, 0, 50, 500, 2000}))
@@ -621,7 +645,7 @@ func gen(t *rapid.T) Plan {
 	return p
 }
 
-const rule = "a connected zcrypto client/server pair (TLS 1.0-1.3; ECDSA, RSA, Ed25519 keys; tickets on/off; handshake completed beforehand in half of the plans, otherwise Read/Write/Handshake race to start it) behind the tlskit proxy (generated per-record delays, records optionally delivered in two segments); 2-6 goroutines per side (readers, writers, mixed, controllers) run generated sequences of Read(0..20000) / Write(tagged record of 6..16384 bytes) / Handshake / ConnectionState / SetDeadline,SetReadDeadline,SetWriteDeadline(past, soon, later, clear) / CloseWrite / Close / Gosched / sleep(1..3000 us), plus two motifs: a writer doing past-write-deadline / Write / clear-deadline / Write (1 side in 8) and a latecomer goroutine whose first call follows a 20-60 ms pause (1 side in 6); when the plan has run or stalled both transports are closed. Non-trivial: >= 2 goroutines reading or >= 2 writing on one side and at least one Close/CloseWrite/deadline operation; distinct by plan hash (each plan is additionally a fresh sample of the scheduler)"
+const rule = "a connected zcrypto client/server pair (TLS 1.0-1.3; ECDSA, RSA, Ed25519 keys; tickets on/off; handshake completed beforehand in half of the plans, otherwise Read/Write/Handshake race to start it) behind the tlskit proxy (generated per-record delays, records optionally delivered in two segments); 2-6 goroutines per side (readers, writers, mixed, controllers) run generated sequences of Read(0..20000) / Write(tagged record of 6..16384 bytes) / Handshake / ConnectionState / SetDeadline,SetReadDeadline,SetWriteDeadline(past, soon, later, clear) / CloseWrite / Close / Gosched / sleep(1..3000 us), plus three motifs: a writer doing past-write-deadline / Write / clear-deadline / Write (1 side in 8), a latecomer goroutine whose first call follows a 20-60 ms pause (1 side in 6) and (every second TLS 1.3 plan) a goroutine that initiates 1-4 KeyUpdates through the verif hook, mostly with update_requested, while the peer gets a reader and a paced writer, so that the peer's reader answers and re-keys while its writer writes; when the plan has run or stalled both transports are closed. Non-trivial: >= 2 goroutines reading or >= 2 writing on one side and at least one Close/CloseWrite/deadline operation; distinct by plan hash (each plan is additionally a fresh sample of the scheduler)"
 
 func TestPropSchedules(t *testing.T) {
 	kit.Run(t, kit.Spec[Plan]{ID: "C34", Name: "schedules", Rule: rule, Gen: gen, Check: check, Quick: 250, Thorough: 1500,
@@ -629,6 +653,6 @@ func TestPropSchedules(t *testing.T) {
 			"schedules are sampled, not enumerated: the race detector generalises each run to its happens-before class, but a race or lost wake-up that needs an interleaving never produced here is missed",
 			"deadlock freedom is decided up to the watchdog after both transports have been closed",
 			"the order in which concurrent Reads on one connection returned is not observable from outside, so the stream oracle accepts any order of the readers' chunks that preserves each reader's own order and yields a valid stream (prefix of an interleaving of whole Writes, each writer's Writes in order; Writes that returned an error may be missing)",
-			"the in-memory transport never blocks a writer (no back-pressure) and applies deadlines like net.Conn; KeyUpdate is never initiated by this library and is not exercised",
+			"the in-memory transport never blocks a writer (no back-pressure) and applies deadlines like net.Conn; KeyUpdate is never initiated by this library itself; in every second TLS 1.3 plan one side initiates key updates through the verif hook VerifC25SendKeyUpdate",
 		}})
 }
